@@ -37,6 +37,48 @@ var fTypExt = map[string]string{}
 var fNilExt = map[string]string{}
 var fLitExt func(c *fctx, n *ast.CompositeLit, pre *[]fbind) (fval, bool)
 
+// propsPrelude: the checked slice operations of Gts/Gen/GoList.lean that props.go needs, word for word, in a namespace of
+// their own — GoList and SeqPrelude define the same names in `Gts.Gen` and cannot be imported together, and the bridges of
+// props.go are obligations of properties on both sides (C19: GoList, C01: SeqPrelude).  Core Lean only.
+const propsPrelude = `namespace Gts.Gen.PropsGo
+
+/-- how a loop whose body can ` + "`return`" + ` ends: ` + "`.next st`" + ` the loop is over (state ` + "`st`" + `), ` + "`.ret v`" + ` the function returned ` + "`v`" + ` -/
+inductive Flow (σ ρ : Type) where
+  | next (s : σ)
+  | ret (r : ρ)
+
+/-- ` + "`p[i]`" + ` -/
+def goIdx {α : Type} (p : List α) (i : Int) : Option α :=
+  if i < 0 then none else p[i.toNat]?
+
+/-- ` + "`p[a:]`" + ` -/
+def goFrom {α : Type} (p : List α) (a : Int) : Option (List α) :=
+  if 0 ≤ a ∧ a ≤ (p.length : Int) then some (p.drop a.toNat) else none
+
+/-- ` + "`p[:b]`" + ` -/
+def goTo {α : Type} (p : List α) (b : Int) : Option (List α) :=
+  if 0 ≤ b ∧ b ≤ (p.length : Int) then some (p.take b.toNat) else none
+
+/-- ` + "`p[i] = x`" + ` -/
+def goSet {α : Type} (p : List α) (i : Int) (x : α) : Option (List α) :=
+  if 0 ≤ i ∧ i < (p.length : Int) then some (p.set i.toNat x) else none
+
+/-- ` + "`copy(q, src)`" + `: the new ` + "`q`" + ` (the first ` + "`min(len(q), len(src))`" + ` cells are overwritten) -/
+def goCopy {α : Type} (q src : List α) : List α :=
+  src.take q.length ++ q.drop src.length
+
+/-- ` + "`copy(q[off:], src)`" + `: the new ` + "`q`" + ` (` + "`q[off:]`" + ` can panic) -/
+def goCopyAt {α : Type} (q : List α) (off : Int) (src : List α) : Option (List α) :=
+  if 0 ≤ off ∧ off ≤ (q.length : Int) then some (q.take off.toNat ++ goCopy (q.drop off.toNat) src) else none
+
+/-- ` + "`make([]T, n)`" + ` with ` + "`z`" + ` the zero value of ` + "`T`" + ` -/
+def goMake {α : Type} (z : α) (n : Int) : Option (List α) :=
+  if n < 0 then none else some (List.replicate n.toNat z)
+
+end Gts.Gen.PropsGo
+
+`
+
 type propsMethod struct {
 	name, lean string
 	ptr        bool
@@ -358,7 +400,7 @@ func genProps(repo string) (text string, err error) {
 		"  `none` is the Go panic (`props[i][0]` on an empty row).  The pointer-receiver methods `Set` / `Add` / `Del` RETURN the new\n" +
 		"  value of `*props` (aliasing and capacity are C11's subject: Gts/Model/Mem.lean).\n" +
 		"  (how the Go is read: the header comments of go2lean/gprops.go and go2lean/gfeat.go)\n-/\n" +
-		"import Gts.Gen.GoList\nnamespace Gts.Gen\nset_option linter.unusedVariables false\n\n")
+		propsPrelude + "namespace Gts.Gen\nopen Gts.Gen.PropsGo\nset_option linter.unusedVariables false\n\n")
 	known := map[string]fcallee{}
 	for _, m := range propsMethods {
 		fd := decls[m.name]
